@@ -66,6 +66,7 @@ type run struct {
 	snap      *fairSnapshot
 	commitAt  map[uint32]map[int]byte // height -> validator -> view in which it sent its Commit
 	hadAsync  bool                    // the case had an adversarial prefix
+	tight     bool                    // small MaxBlockSystemFee / MaxBlockSize: pools exceed a block
 }
 
 func (r *run) fail(key, format string, a ...any) {
@@ -514,6 +515,7 @@ func (r *run) fair(blocks int) {
 	fires, total := 0, 0
 	lastHi := start
 	r.snap = nil
+	first := true
 	for r.ok() {
 		// deliver until quiet
 		for guard := 0; r.ok(); guard++ {
@@ -539,11 +541,25 @@ func (r *run) fair(blocks int) {
 			}
 		}
 		lo, hi := r.heights()
-		if hi > lastHi {
+		if hi > lastHi || (first && !r.hadAsync) {
 			r.checkFairBlocks(lastHi, hi)
 			lastHi = hi
 			fires, total = 0, 0
+			// new pending transactions, the same or different ones on different validators; with
+			// tight limits enough of them to exceed a block
+			for i := r.r.Intn(3) + 2*b2i(r.tight); i > 0 && lo == hi; i-- {
+				var to []int
+				all := r.r.Chance(2, 3)
+				for j := range r.cl.nodes {
+					if all || r.r.Chance(3, 4) {
+						to = append(to, j)
+					}
+				}
+				r.injectTx(to)
+			}
+			r.snapshot()
 		}
+		first = false
 		if lo >= target {
 			return
 		}
@@ -593,7 +609,7 @@ func (r *run) fair(blocks int) {
 			fires++
 		}
 		total++
-		if total > 30000 {
+		if total > 3000 {
 			// committed validators re-send every 2*timePerBlock while the others wait
 			// timePerBlock<<(view+1): at high views the budget above is not reached in reasonable
 			// time. No verdict on liveness for this case (counted, not a failure).
@@ -701,25 +717,33 @@ func (r *run) checkFairBlocks(from, to uint32) {
 				in[tx.Hash()] = true
 			}
 			pi := int(b.PrimaryIndex)
-			want := len(r.snap.pools[pi])
-			if want > r.maxTx {
-				want = r.maxTx
+			pool := r.snap.pools[pi] // what the primary held, in proposal (priority) order
+			k := len(b.Transactions)
+			cfg := r.cl.nodes[pi].bc.GetConfig()
+			// the block carries the first k pending transactions of its proposer ...
+			prefix := k <= len(pool)
+			for i := 0; prefix && i < k; i++ {
+				prefix = b.Transactions[i].Hash() == pool[i]
 			}
-			if len(b.Transactions) < want {
-				r.fail("tx-missing", "fair schedule: block %d carries %d transactions, the primary had %d pending (max per block %d)", h, len(b.Transactions), len(r.snap.pools[pi]), r.maxTx)
-			}
-			if len(r.snap.pools[pi]) <= r.maxTx {
-				for _, t := range r.snap.common {
-					if !in[t] {
-						r.fail("tx-missing", "fair schedule: block %d lacks transaction %s pending on every validator", h, t.StringLE())
-						break
-					}
+			if !prefix {
+				r.fail("tx-missing", "fair schedule: block %d (%d transactions) is not the head of the %d transactions its proposer had pending", h, k, len(pool))
+			} else if k < len(pool) && k < r.maxTx {
+				// ... and stops only at a limit: one more would not fit
+				next := r.txs[pool[k]]
+				fee, size := next.SystemFee, b.GetExpectedBlockSizeWithoutTransactions(k+1)+next.Size()
+				for _, tx := range b.Transactions {
+					fee += tx.SystemFee
+					size += tx.Size()
 				}
+				if fee <= cfg.MaxBlockSystemFee && size <= int(cfg.MaxBlockSize) {
+					r.fail("tx-missing", "fair schedule: block %d carries %d of the %d transactions its proposer had pending although one more fits (system fee %d <= %d, size %d <= %d, count < %d)", h, k, len(pool), fee, cfg.MaxBlockSystemFee, size, cfg.MaxBlockSize, r.maxTx)
+				}
+				r.o.Count("fair:block-cut-at-limit")
 			}
+			_ = in
 			r.o.Count("fair:tx-checked")
 		}
 	}
-	r.snapshot()
 }
 
 func viewOf(b *block.Block, n int) byte {
